@@ -6,7 +6,7 @@ From Osmo Require Import Base.DecModel CL.CLPool CL.CLSwap CL.CLStep CLR.Accum C
   C08.Proj C08.Telescope C08.View C08.Static C08.Ops C08.OpInside C08.SwapTrace C08.Crux C08.Check
   C08.Claim C08.Conseq C08.Frame C08.Never C08.SwapWf C08.Dom C08.StaticOk C08.Final
   C07.Base C08.Paid C08.PaidOps C08.PaidSwap C08.PaidHist C08.Modify C08.Twins
-  C08.IncAcc C08.Inc C08.IncList C08.IncStage C08.IncOps C08.IncSwap C08.IncHist C08.UpNever C08.UpTwins C08.ClaimOk C08.ClaimInv.
+  C08.IncAcc C08.Inc C08.IncList C08.IncStage C08.IncOps C08.IncSwap C08.IncHist C08.UpNever C08.UpTwins C08.ClaimOk C08.ClaimInv C08.ClaimIncInv.
 Open Scope Z_scope.
 
 (* ---- the reward model extends the shared pool model conservatively ---- *)
@@ -557,3 +557,20 @@ Proof.
   repeat (destruct HIn as [HIn|HIn]; [subst p; intros r R; vm_compute in R; inversion R; subst r; intros [|]; split; vm_compute; discriminate|]).
   destruct HIn.
 Qed.
+
+(* ==== the sign conditions of the INCENTIVE claim are invariants too ==== *)
+(* in every reachable state, for every supported uptime u and denomination d: every stored uptime growth-outside tracker lies in
+   [0, value of the u-th uptime accumulator] (so "global - tracker" in GetUptimeGrowthInsideRange / crossTick and "global - inside" in
+   GetUptimeGrowthOutsideRange never go negative), and the snapshot of every open position's record in the u-th accumulator lies in
+   [- value, uptime growth inside its range] (so GetTotalRewards' "value - snapshot" never goes negative); unclaimed amounts are >= 0 by
+   PII.  The uptime accumulators only grow: accrual and the re-deposit of forfeited incentives add non-negative amounts.
+   What remains for "incentive claim queries never fail" is range / time arithmetic only: LegacyDec range of the accrual and of the claim,
+   block time >= last liquidity update and >= join time (the model's OTime accepts negative steps), and the length of the tracker lists. *)
+Theorem C08_incentive_sign_conditions_reachable : forall sp spf ssc isc users t ops, 0 < sp -> 0 <= spf <= 500000000000000000 -> 0 < isc ->
+  let rs := rrun (rinit sp spf ssc isc users t) ops in
+  TBU (r_rw rs) /\ forall id l h, livep (r_base rs) id l h -> srecU (r_rw rs) (cur_tick rs) id l h.
+Proof.
+  intros sp spf ssc isc users t ops Hsp Hspf Hisc rs.
+  destruct (CII_run ops _ (CII_init sp spf ssc isc users t Hsp Hspf Hisc)) as [_ [A B]]. split; assumption.
+Qed.
+Print Assumptions C08_incentive_sign_conditions_reachable.
